@@ -136,9 +136,11 @@ pub async fn transfer_file_to_remote(
         .arg(host)
         // The rename is conditioned on the staged size: `cat` exits 0 on ANY end of
         // input, also when this process dies mid-file, and a truncated upload must
-        // never be renamed over the destination.
+        // never be renamed over the destination. And `mv` given an existing DIRECTORY as its
+        // target moves the staged file INTO it and succeeds: a file that cannot replace a
+        // directory of the same name must be reported as failed, not counted as sent.
         .arg(format!(
-            "cat > $'{tmp_escaped}' && [ \"$(wc -c < $'{tmp_escaped}')\" -eq {file_size} ] && mv -f $'{tmp_escaped}' $'{escaped}'{touch}"
+            "cat > $'{tmp_escaped}' && [ \"$(wc -c < $'{tmp_escaped}')\" -eq {file_size} ] && [ ! -d $'{escaped}' ] && mv -f $'{tmp_escaped}' $'{escaped}'{touch}"
         ))
         .stdin(std::process::Stdio::piped())
         .stdout(std::process::Stdio::null())
